@@ -170,7 +170,9 @@ def _env_set(env: Env, k: str, v: str) -> Env:
 def restore_rule(repo: Repo, rep, P: str):
     from .. import inline
     sf = repo.module("rv.errors")
-    fn = inline.flatten(repo, None, repo.func("rv.errors", OVERRIDE), sf=sf)
+    from ..cfg import desugar_exitstack as _des
+    # `with ExitStack() as s: …; s.callback(restore, old)` reads as try/finally; then the private swap helper is read through
+    fn = inline.flatten(repo, None, _des(repo.func("rv.errors", OVERRIDE)), sf=sf)
     construct = f"{sf.rel}:{OVERRIDE}"
     rep.func(f"rv.errors.{OVERRIDE}")
     decos = [norm(d) for d in fn.decorator_list]
